@@ -93,9 +93,15 @@ def outcomes():
 OUTCOMES = None
 
 
-def make_resource(outcome_fn, delay, only=None):
-    class R(resource.Resource):
-        pass
+def make_resource(outcome_fn, delay, only=None, observable=None):
+    if observable is None:
+        class R(resource.Resource):
+            pass
+    else:
+        class R(resource.ObservableResource):
+            async def add_observation(self, request, serverobservation):
+                if observable == "accepted":
+                    serverobservation.accept(lambda: None)
 
     async def handler(self, request):
         if delay:
@@ -142,20 +148,23 @@ def run_cell(res, oname, slow, method, con, situation):
     w = World()
     try:
         site = resource.Site()
-        site.add_resource(["known"], make_resource(fn, 0.5 if slow else 0.0))
+        site.add_resource(["known"], make_resource(fn, 0.5 if slow else 0.0,
+                                                   observable={"obs-declined": "declined", "obs-accepted": "accepted"}.get(situation)))
         site.add_resource(["getonly"], make_resource(lambda: Message(payload=b"g"), 0.0, only=("get",)))
         node = w.add_context("srv", *SRV, site=None if situation == "nosite" else site)
         w.add_peer(AutoAck("p1", *P1))
         paths = {"known": [b"known"], "unknown": [b"nowhere"], "unknown-root": [], "unknown-deep": [b"known", b"deeper"],
-                 "unknown-slash": [b"known", b""], "unimplemented": [b"getonly"], "nosite": [b"known"]}[situation]
+                 "unknown-slash": [b"known", b""], "unimplemented": [b"getonly"], "nosite": [b"known"],
+                 "obs-declined": [b"known"], "obs-accepted": [b"known"]}[situation]
         tok = b"\xC9\x01"
-        w.inject(P1, SRV, rc.encode((rc.CON if con else rc.NON, method, 0x3001, tok, [(11, p) for p in paths], b"")))
+        obs = [(6, b"")] if situation.startswith("obs-") else []    # a registration attempt at an observable resource
+        w.inject(P1, SRV, rc.encode((rc.CON if con else rc.NON, method, 0x3001, tok, obs + [(11, p) for p in paths], b"")))
         serve(w, 3.0)
         case = {"outcome": oname, "slow": slow, "method": method, "con": con, "situation": situation}
         res.evaluations += 1
         res.traces += 1
         fin = finals(w, P1, tok)
-        if situation == "known":
+        if situation in ("known", "obs-declined", "obs-accepted"):
             if exp == "default":
                 want = (default_code(method), b"")
             elif exp == "bare500":
@@ -170,7 +179,7 @@ def run_cell(res, oname, slow, method, con, situation):
             want = (132, None)
         got = [(m[1], m[5]) for m in fin]
         ok = len(fin) == 1 and fin[0][1] == want[0] and (want[1] is None or fin[0][5] == want[1])
-        if ok and exp == "bare500" and situation == "known" and fin[0][4]:
+        if ok and exp == "bare500" and situation in ("known", "obs-declined", "obs-accepted") and fin[0][4]:
             ok = False
         if not ok:
             res.violate(Violation("final-response", {"count": 1, "code": rc.code_str(want[0]), "payload": want[1]},
@@ -188,7 +197,7 @@ def run_cell(res, oname, slow, method, con, situation):
         for msg, e in w.loop_exceptions():
             res.violate(Violation("loop-exception", "none", core.exc_desc(e) if e else msg, core.site_of(e) if e else "loop", case,
                                   key=type(e).__name__ if e else msg[:40]))
-        if node.tman.incoming_requests:
+        if node.tman.incoming_requests and not (situation == "obs-accepted" and fin and fin[0][1] < 128):
             res.violate(Violation("request-state-left", "no incoming request left after the final response",
                                   len(node.tman.incoming_requests), "tokenmanager.py", case, key="left"))
         res.states.add(core.digest((oname, slow, method, con, situation, got)))
@@ -371,6 +380,11 @@ def run(tier, seed, jobs):
             for method in methods:
                 for con in (True, False):
                     cells.append((oname, slow, method, con, "known"))
+    for oname in names:
+        for slow in (False, True):
+            for con in (True, False):
+                cells.append((oname, slow, 1, con, "obs-declined"))
+                cells.append((oname, slow, 1, con, "obs-accepted"))
     for method in METHODS:
         for con in (True, False):
             cells.append(("ret-empty", False, method, con, "unknown"))
